@@ -40,10 +40,8 @@ from pynguin.instrumentation.version.common import (
     InstrumentationNameLoad,
     InstrumentationSetupAction,
     InstrumentationStackValue,
-    after,
     before,
     extract_name,
-    override,
 )
 
 if TYPE_CHECKING:
@@ -1047,7 +1045,8 @@ class BranchCoverageInstrumentation(transformer.BranchCoverageInstrumentationAda
         # Insert instructions right before the comparison.
         # We duplicate the values on top of the stack and report
         # them to the tracer.
-        node.basic_block[before(instr_index)] = self.instructions_generator.generate_instructions(
+        position = node.before(instr_index)
+        node.basic_block[position] = self.instructions_generator.generate_instructions(
             InstrumentationSetupAction.COPY_FIRST_TWO,
             InstrumentationMethodCall(
                 self._subject_properties.instrumentation_tracer,
@@ -1078,7 +1077,8 @@ class BranchCoverageInstrumentation(transformer.BranchCoverageInstrumentationAda
         # Insert instructions right before the conditional jump.
         # We duplicate the values on top of the stack and report
         # them to the tracer.
-        node.basic_block[before(instr_index)] = self.instructions_generator.generate_instructions(
+        position = node.before(instr_index)
+        node.basic_block[position] = self.instructions_generator.generate_instructions(
             InstrumentationSetupAction.COPY_FIRST_TWO,
             InstrumentationMethodCall(
                 self._subject_properties.instrumentation_tracer,
@@ -1108,7 +1108,8 @@ class BranchCoverageInstrumentation(transformer.BranchCoverageInstrumentationAda
         # Insert instructions right before the conditional jump.
         # We duplicate the value on top of the stack and report
         # it to the tracer.
-        node.basic_block[before(instr_index)] = self.instructions_generator.generate_instructions(
+        position = node.before(instr_index)
+        node.basic_block[position] = self.instructions_generator.generate_instructions(
             InstrumentationSetupAction.COPY_FIRST,
             InstrumentationMethodCall(
                 self._subject_properties.instrumentation_tracer,
@@ -1152,7 +1153,8 @@ class BranchCoverageInstrumentation(transformer.BranchCoverageInstrumentationAda
         )
 
         # Emit the auxiliary IN predicate before the original instruction.
-        node.basic_block[before(instr_index)] = self.instructions_generator.generate_instructions(
+        position = node.before(instr_index)
+        node.basic_block[position] = self.instructions_generator.generate_instructions(
             InstrumentationSetupAction.COPY_FIRST_TWO,
             method_call_aux_in,
             instr.lineno,
@@ -1254,7 +1256,8 @@ class LineCoverageInstrumentation(transformer.LineCoverageInstrumentationAdapter
         )
 
         # Insert instructions before each line instructions.
-        node.basic_block[before(instr_index)] = self.instructions_generator.generate_instructions(
+        position = node.before(instr_index)
+        node.basic_block[position] = self.instructions_generator.generate_instructions(
             InstrumentationSetupAction.NO_ACTION,
             InstrumentationMethodCall(
                 self._subject_properties.instrumentation_tracer,
@@ -1367,7 +1370,8 @@ class CheckedCoverageInstrumentation(transformer.CheckedCoverageInstrumentationA
         instr_original_index: int,
     ) -> None:
         # Instrumentation before the original instruction
-        node.basic_block[before(instr_index)] = self.instructions_generator.generate_instructions(
+        position = node.before(instr_index)
+        node.basic_block[position] = self.instructions_generator.generate_instructions(
             InstrumentationSetupAction.NO_ACTION,
             InstrumentationMethodCall(
                 self._subject_properties.instrumentation_tracer,
@@ -1417,10 +1421,10 @@ class CheckedCoverageInstrumentation(transformer.CheckedCoverageInstrumentationA
             case "DELETE_FAST":
                 # Instrumentation before the original instruction
                 # (otherwise we can not read the data)
-                node.basic_block[before(instr_index)] = instructions
+                node.basic_block[node.before(instr_index)] = instructions
             case "LOAD_FAST" | "STORE_FAST":
                 # Instrumentation after the original instruction
-                node.basic_block[after(instr_index)] = instructions
+                node.basic_block[node.after(instr_index)] = instructions
 
     def visit_attr_access(  # noqa: D102, PLR0917
         self,
@@ -1450,7 +1454,7 @@ class CheckedCoverageInstrumentation(transformer.CheckedCoverageInstrumentationA
         match instr.name:
             case "LOAD_ATTR" | "DELETE_ATTR" | "IMPORT_FROM" | "LOAD_METHOD":
                 # Instrumentation before the original instruction
-                node.basic_block[before(instr_index)] = (
+                node.basic_block[node.before(instr_index)] = (
                     self.instructions_generator.generate_instructions(
                         InstrumentationSetupAction.COPY_FIRST,
                         method_call,
@@ -1459,7 +1463,7 @@ class CheckedCoverageInstrumentation(transformer.CheckedCoverageInstrumentationA
                 )
             case "STORE_ATTR":
                 # Instrumentation mostly after the original instruction
-                node.basic_block[override(instr_index)] = (
+                node.basic_block[node.override(instr_index)] = (
                     self.instructions_generator.generate_overriding_instructions(
                         InstrumentationSetupAction.COPY_FIRST_SHIFT_DOWN_TWO,
                         instr,
@@ -1496,7 +1500,7 @@ class CheckedCoverageInstrumentation(transformer.CheckedCoverageInstrumentationA
         match instr.name:
             case "STORE_SUBSCR":
                 # Instrumentation mostly after the original instruction
-                node.basic_block[override(instr_index)] = (
+                node.basic_block[node.override(instr_index)] = (
                     self.instructions_generator.generate_overriding_instructions(
                         InstrumentationSetupAction.COPY_SECOND_SHIFT_DOWN_THREE,
                         instr,
@@ -1506,7 +1510,7 @@ class CheckedCoverageInstrumentation(transformer.CheckedCoverageInstrumentationA
                 )
             case "DELETE_SUBSCR":
                 # Instrumentation mostly after the original instruction
-                node.basic_block[override(instr_index)] = (
+                node.basic_block[node.override(instr_index)] = (
                     self.instructions_generator.generate_overriding_instructions(
                         InstrumentationSetupAction.COPY_SECOND_SHIFT_DOWN_TWO,
                         instr,
@@ -1516,7 +1520,7 @@ class CheckedCoverageInstrumentation(transformer.CheckedCoverageInstrumentationA
                 )
             case "BINARY_SUBSCR":
                 # Instrumentation before the original instruction
-                node.basic_block[before(instr_index)] = (
+                node.basic_block[node.before(instr_index)] = (
                     self.instructions_generator.generate_instructions(
                         InstrumentationSetupAction.COPY_SECOND,
                         method_call,
@@ -1557,10 +1561,10 @@ class CheckedCoverageInstrumentation(transformer.CheckedCoverageInstrumentationA
             case "DELETE_NAME":
                 # Instrumentation before the original instruction
                 # (otherwise we can not read the data)
-                node.basic_block[before(instr_index)] = instructions
+                node.basic_block[node.before(instr_index)] = instructions
             case "STORE_NAME" | "LOAD_NAME" | "IMPORT_NAME":
                 # Instrumentation after the original instruction
-                node.basic_block[after(instr_index)] = instructions
+                node.basic_block[node.after(instr_index)] = instructions
 
     def visit_import_name_access(  # noqa: D102, PLR0917
         self,
@@ -1572,7 +1576,8 @@ class CheckedCoverageInstrumentation(transformer.CheckedCoverageInstrumentationA
         instr_index: int,
         instr_original_index: int,
     ) -> None:
-        node.basic_block[after(instr_index)] = self.instructions_generator.generate_instructions(
+        position = node.after(instr_index)
+        node.basic_block[position] = self.instructions_generator.generate_instructions(
             InstrumentationSetupAction.COPY_FIRST,
             InstrumentationMethodCall(
                 self._subject_properties.instrumentation_tracer,
@@ -1627,10 +1632,10 @@ class CheckedCoverageInstrumentation(transformer.CheckedCoverageInstrumentationA
             case "DELETE_GLOBAL":
                 # Instrumentation before the original instruction
                 # (otherwise we can not read the data)
-                node.basic_block[before(instr_index)] = instructions
+                node.basic_block[node.before(instr_index)] = instructions
             case "STORE_GLOBAL" | "LOAD_GLOBAL":
                 # Instrumentation after the original instruction
-                node.basic_block[after(instr_index)] = instructions
+                node.basic_block[node.after(instr_index)] = instructions
 
     def visit_deref_access(  # noqa: D102, PLR0917
         self,
@@ -1671,10 +1676,10 @@ class CheckedCoverageInstrumentation(transformer.CheckedCoverageInstrumentationA
             case "DELETE_DEREF":
                 # Instrumentation before the original instruction
                 # (otherwise we can not read the data)
-                node.basic_block[before(instr_index)] = instructions
+                node.basic_block[node.before(instr_index)] = instructions
             case "STORE_DEREF" | "LOAD_DEREF" | "LOAD_CLASSDEREF":
                 # Instrumentation after the original instruction
-                node.basic_block[after(instr_index)] = instructions
+                node.basic_block[node.after(instr_index)] = instructions
 
     def visit_jump(  # noqa: D102, PLR0917
         self,
@@ -1687,7 +1692,8 @@ class CheckedCoverageInstrumentation(transformer.CheckedCoverageInstrumentationA
         instr_original_index: int,
     ) -> None:
         # Instrumentation before the original instruction
-        node.basic_block[before(instr_index)] = self.instructions_generator.generate_instructions(
+        position = node.before(instr_index)
+        node.basic_block[position] = self.instructions_generator.generate_instructions(
             InstrumentationSetupAction.NO_ACTION,
             InstrumentationMethodCall(
                 self._subject_properties.instrumentation_tracer,
@@ -1719,7 +1725,8 @@ class CheckedCoverageInstrumentation(transformer.CheckedCoverageInstrumentationA
         argument = instr.arg if isinstance(instr.arg, int) and instr.arg != UNSET else None
 
         # Instrumentation before the original instruction
-        node.basic_block[before(instr_index)] = self.instructions_generator.generate_instructions(
+        position = node.before(instr_index)
+        node.basic_block[position] = self.instructions_generator.generate_instructions(
             InstrumentationSetupAction.NO_ACTION,
             InstrumentationMethodCall(
                 self._subject_properties.instrumentation_tracer,
@@ -1749,7 +1756,8 @@ class CheckedCoverageInstrumentation(transformer.CheckedCoverageInstrumentationA
     ) -> None:
         # Instrumentation before the original instruction
         # (otherwise we can not read the data)
-        node.basic_block[before(instr_index)] = self.instructions_generator.generate_instructions(
+        position = node.before(instr_index)
+        node.basic_block[position] = self.instructions_generator.generate_instructions(
             InstrumentationSetupAction.NO_ACTION,
             InstrumentationMethodCall(
                 self._subject_properties.instrumentation_tracer,
@@ -1908,7 +1916,7 @@ class DynamicSeedingInstrumentation(transformer.DynamicSeedingInstrumentationAda
         instr: Instr,
         instr_index: int,
     ) -> None:
-        node.basic_block[before(instr_index)] = (
+        node.basic_block[node.before(instr_index)] = (
             *self.instructions_generator.generate_instructions(
                 InstrumentationSetupAction.COPY_FIRST,
                 InstrumentationMethodCall(
@@ -1940,7 +1948,7 @@ class DynamicSeedingInstrumentation(transformer.DynamicSeedingInstrumentationAda
         instr: Instr,
         instr_index: int,
     ) -> None:
-        node.basic_block[before(instr_index + 1)] = (
+        node.basic_block[node.before(instr_index + 1)] = (
             self.instructions_generator.generate_instructions(
                 InstrumentationSetupAction.COPY_FIRST,
                 InstrumentationMethodCall(
@@ -1966,7 +1974,7 @@ class DynamicSeedingInstrumentation(transformer.DynamicSeedingInstrumentationAda
         instr: Instr,
         instr_index: int,
     ) -> None:
-        node.basic_block[before(instr_index + 2)] = (
+        node.basic_block[node.before(instr_index + 2)] = (
             self.instructions_generator.generate_instructions(
                 InstrumentationSetupAction.ADD_FIRST_TWO_REVERSED,
                 InstrumentationMethodCall(
@@ -1989,7 +1997,7 @@ class DynamicSeedingInstrumentation(transformer.DynamicSeedingInstrumentationAda
         instr: Instr,
         instr_index: int,
     ) -> None:
-        node.basic_block[before(instr_index + 2)] = (
+        node.basic_block[node.before(instr_index + 2)] = (
             self.instructions_generator.generate_instructions(
                 InstrumentationSetupAction.ADD_FIRST_TWO,
                 InstrumentationMethodCall(
